@@ -599,6 +599,62 @@ func genPlan(rng *rand.Rand, name string, mode string) *Plan {
 	return p
 }
 
+// timed scenarios: a request with timeout T, a receipt of every type arriving before, at and after H+T
+func genTimed(rng *rand.Rand, name string) *Plan {
+	p := &Plan{Name: name, Seed: 1, Proof: "serial", Chains: []string{"chainA", "chainB", "chainC"}, NSvc: 2, Black: map[string]string{}, Audit: rng.Intn(2) == 0}
+	var svcs []string
+	for _, c := range p.Chains {
+		svcs = append(svcs, c+":svc1", c+":svc2")
+	}
+	used := map[string]uint64{}
+	for round := 0; round < 4; round++ {
+		s, d := svcs[rng.Intn(len(svcs))], svcs[rng.Intn(len(svcs))]
+		if s == d {
+			continue
+		}
+		pr := s + ">" + d
+		used[pr]++
+		idx := used[pr]
+		T := int64(1 + rng.Intn(3))
+		delay := int(T) - 1 + rng.Intn(3) // receipt lands in block H+T-1, H+T or H+T+1
+		typ := []string{"OK", "FAIL", "RB"}[rng.Intn(3)]
+		if rng.Intn(4) == 0 {
+			// grouped variant: two children, one reports success, the group then runs into its timeout
+			d2 := svcs[rng.Intn(len(svcs))]
+			if d2 == d || d2 == s || strings.Split(d2, ":")[0] == strings.Split(d, ":")[0] {
+				continue
+			}
+			pr2 := s + ">" + d2
+			used[pr2]++
+			g := []string{d, d2}
+			gi := []uint64{idx, used[pr2]}
+			p.Steps = append(p.Steps, Step{Step: "block", Txs: []Tx{{K: "ibtp", Src: s, Dst: d, Idx: gi[0], Typ: "REQ", T: T + 1, GDst: g, GIdx: gi, From: "u1"},
+				{K: "ibtp", Src: s, Dst: d2, Idx: gi[1], Typ: "REQ", T: T + 1, GDst: g, GIdx: gi, From: "u1"}}})
+			if rng.Intn(3) > 0 {
+				p.Steps = append(p.Steps, Step{Step: "block", Txs: []Tx{{K: "ibtp", Src: s, Dst: d, Idx: gi[0], Typ: "OK", From: "u2"}}})
+			}
+			p.Steps = append(p.Steps, Step{Step: "empty", N: int(T) + 2})
+			p.Steps = append(p.Steps, Step{Step: "block", Txs: []Tx{{K: "ibtp", Src: s, Dst: d2, Idx: gi[1], Typ: []string{"OK", "RB", "FAIL"}[rng.Intn(3)], From: "u2"}}})
+			continue
+		}
+		p.Steps = append(p.Steps, Step{Step: "block", Txs: []Tx{{K: "ibtp", Src: s, Dst: d, Idx: idx, Typ: "REQ", T: T, From: "u1"}}})
+		if delay > 1 {
+			p.Steps = append(p.Steps, Step{Step: "empty", N: delay - 1})
+		}
+		if delay >= 1 {
+			p.Steps = append(p.Steps, Step{Step: "block", Txs: []Tx{{K: "ibtp", Src: s, Dst: d, Idx: idx, Typ: typ, From: "u2"}}})
+		}
+		p.Steps = append(p.Steps, Step{Step: "empty", N: 2})
+		if rng.Intn(2) == 0 {
+			p.Steps = append(p.Steps, Step{Step: "block", Txs: []Tx{{K: "ibtp", Src: s, Dst: d, Idx: idx, Typ: []string{"OK", "FAIL", "RB"}[rng.Intn(3)], From: "u3"}}})
+		}
+		if rng.Intn(5) == 0 {
+			p.Steps = append(p.Steps, Step{Step: "restart"})
+		}
+	}
+	return p
+}
+
 func main() {
 	plansFile := flag.String("plans", "", "")
 	outDir := flag.String("out", ".", "")
@@ -619,7 +675,11 @@ func main() {
 	} else {
 		rng := rand.New(rand.NewSource(*seed))
 		for i := 0; i < *n; i++ {
-			plans = append(plans, genPlan(rng, fmt.Sprintf("rand-%d-%d", *seed, i), *mode))
+			if *mode == "timed" {
+				plans = append(plans, genTimed(rng, fmt.Sprintf("timed-%d-%d", *seed, i)))
+			} else {
+				plans = append(plans, genPlan(rng, fmt.Sprintf("rand-%d-%d", *seed, i), *mode))
+			}
 		}
 	}
 	os.MkdirAll(*outDir, 0755)
